@@ -8,6 +8,7 @@ CONSTANTS
   Coords = {"A", "X"}
   OpKinds = {"CreateStream", "DeleteStream", "Pause", "Resume", "SetReadonly", "ShrinkISR", "ExpandISR", "ChangeLeader", "PublishActivity"}
   Variants = {"plain", "custom"}
+  Extras = {"PersistWith"}
   MaxOps = 9
   MaxSnaps = 2
   MaxRestarts = 2
